@@ -1355,6 +1355,8 @@ pub open spec fn write_frame(old: World, fin: World, base: PathV, name: Seq<u8>,
                  'r.is_ok() ==> observe_step(old(w).counter, self.spec_trigger().spec_scale(), r.unwrap().is_some(), final(w).counter)'),
                 ('C06 C20:constant-number-of-filesystem-calls-outside-maintenance',
                  'r.is_ok() && r.unwrap().is_none() ==> final(w).steps <= old(w).steps + %d && final(w).opens == old(w).opens && final(w).listed == old(w).listed' % nsteps),
+                ('C06:linear-in-the-number-of-directory-entries-with-maintenance',
+                 'final(w).steps <= old(w).steps + %d + 3 * (final(w).listed - old(w).listed) && final(w).opens <= old(w).opens + 2' % (nsteps + 4)),
                 ('C18 C11:success-means-the-key-is-bound-and-the-source-consumed',
                  'r.is_ok() ==> old(w).files.contains_key(pv(value)) && !final(w).files.contains_key(pv(value)) && final(w).files.contains_key(%s)' % DST
                  + (' && final(w).files[%s] == old(w).files[pv(value)]' % DST if opname == 'set' else '')),
